@@ -1,5 +1,5 @@
 (* C14 — timeouts bound execution and surface as failures. *)
-From Coq Require Import List ZArith NArith Bool Arith.
+From Coq Require Import List ZArith NArith Bool Arith Lia ZifyBool ZifyN.
 Import ListNotations.
 From SV Require Import Exec ExecProofs gen_Consts Config.
 Local Open Scope N_scope.
@@ -31,6 +31,24 @@ Theorem C14_no_spurious : forall tcs rs gs i g outs, exec tcs rs gs i = ExTimeou
   exists j r, nth_error rs j = Some r /\ status r = TimedOut.
 Proof. exact no_spurious_timeout. Qed.
 
+(* once the document limit has run out -- also BETWEEN two test cases, e.g. while scrut waited before one -- the next test
+   case starts under a limit of exactly zero, attributed to the document: a limit that is set never becomes `no limit`,
+   and (with C14_timeout_surfaces) that test case is the timeout, the rest are skipped *)
+Theorem C14_deadline_passed : forall per t elapsed, t <= elapsed -> (forall p, per = Some p -> 0 < p) ->
+  effective_limit per (time_left (Some t) elapsed) = Some (0, true).
+Proof.
+  intros per t elapsed H Hp. unfold time_left, effective_limit. cbn [option_map].
+  assert (E: t - elapsed = 0) by lia. rewrite E. destruct per as [p|]; [|reflexivity].
+  specialize (Hp p eq_refl). destruct (0 <? p) eqn:L; [reflexivity|lia].
+Qed.
+Theorem C14_limit_never_lost : forall per t elapsed,
+  exists d g, effective_limit per (time_left (Some t) elapsed) = Some (d, g) /\ d <= t - elapsed.
+Proof.
+  intros per t elapsed. unfold time_left, effective_limit. cbn [option_map]. destruct per as [p|].
+  - destruct (t - elapsed <? p) eqn:L; eexists; eexists; (split; [reflexivity|lia]).
+  - eexists; eexists; split; [reflexivity|lia].
+Qed.
+
 (* the default document limit, regenerated from /repo on this run *)
 Theorem C14_default_limit : default_document_timeout_ms = 900000 /\ doc_default_markdown_total_timeout = Some 900000
                             /\ doc_default_cram_total_timeout = Some 900000.
@@ -49,3 +67,5 @@ Print Assumptions C14_effective_kind.
 Print Assumptions C14_timeout_surfaces.
 Print Assumptions C14_no_spurious.
 Print Assumptions C14_default_limit.
+Print Assumptions C14_deadline_passed.
+Print Assumptions C14_limit_never_lost.
